@@ -286,6 +286,8 @@ func (c *recCache) takeWrites() string {
 	var parts []string
 	for _, w := range c.writes {
 		parts = append(parts, canonDoc(w))
+		// the bytes themselves, for the text-layer model (CacheDoc.renderDoc / readDoc)
+		emit("cachedoc\tcanon=%s\traw=%s", canonDoc(w), hb(w))
 	}
 	c.writes = nil
 	if len(parts) == 0 {
